@@ -451,19 +451,39 @@ class Design:
     for (t, op, rhs) in b['stmts']:
       tgt = self.oexpr(t, comp)
       if op == 'for':
-        lines += [f'      for {tgt} in range( 2 ):', '        pass']
+        lines += self.placed([f'for {tgt} in range( 2 ):', '  pass'], (st, len(lines), tgt, op))
         continue
       sym = {'at': '@=', 'ff': '<<=', 'assign': '='}[op]
       if rhs[0] == 'k': r = tconst_src(self.otype(t), rhs[1])
       elif rhs[0] == 'r': r = self.oexpr(rhs[1], comp)
       else: r = f'{tgt} + 1'
-      lines.append(f'      {tgt} {sym} {r}')
+      lines += self.placed([f'{tgt} {sym} {r}'], (st, len(lines), tgt, op))
     for r in b.get('extra_reads', []):
-      lines.append(f'      tmp = {self.oexpr(r, comp)}')
+      lines += self.placed([f'tmp = {self.oexpr(r, comp)}'], (st, len(lines), 'read'))
     for c in b.get('calls', []):
-      lines.append(f'      fn{c}()')
+      lines += self.placed([f'fn{c}()'], (st, len(lines), 'call', c))
     if len(lines) == 2: lines.append('      pass')
     return lines
+
+  def placed(self, stmt, key):
+    """syntactic placement of one statement of an update block / helper: plainly, in the body of a one-trip for loop, in the
+    else clause of a for loop, under an always-true if, in the else of an always-false if, or nested; Python executes it
+    exactly once in every form. The choice is a function of the design (no random state: replays render the same text)."""
+    import zlib
+    h = zlib.crc32(repr((key, len(self.sigs), len(self.conns), len(self.blks))).encode())
+    ind = lambda ls, n=1: ['  ' * n + l for l in ls]
+    forms = [
+      lambda x: x,
+      lambda x: x,
+      lambda x: ['for _k in range( 1 ):'] + ind(x),
+      lambda x: ['for _k in range( 1 ):', '  pass', 'else:'] + ind(x),
+      lambda x: ['if 1 == 1:'] + ind(x),
+      lambda x: ['if 1 == 0:', '  pass', 'else:'] + ind(x),
+      lambda x: ['if 1 == 1:'] + ind(['for _k in range( 1 ):', '  pass', 'else:'] + ind(x)),
+      lambda x: ['for _k in range( 1 ):'] + ind(['if 2 > 1:'] + ind(x)),
+      lambda x: ['for _k in range( 1 ):', '  pass', 'else:'] + ind(['for _j in range( 1 ):', '  pass', 'else:'] + ind(x)),
+    ]
+    return ['      ' + l for l in forms[h % len(forms)](stmt)]
 
   def lams_last(self, sts):
     """a `//= lambda` that calls a helper must come after the helper's definition (its closure cell is read at once)"""
